@@ -124,7 +124,7 @@ class Prop:
         if "anomaly" in f:
             tok = f["anomaly"][0].split()
             what = tok[1] if len(tok) > 1 and tok[0].startswith("op") and tok[0][2:].isdigit() else tok[0]
-            return "get-anomaly-" + what.rstrip(":")
+            return ("api-" if what.startswith("NoisePrivateKey") else "get-anomaly-") + what.rstrip(":")
         if "obs" not in case:
             # a shrunk candidate carries no observations: run it again and take its own first failure
             fs = [g for g in self.run_cases([case]) if g["kind"] == 2]
